@@ -96,7 +96,8 @@ def schedule(rng, length=None):
             st = [rng.choice([OWN, F.rand_mac(rng)]) for _ in range(rng.choice([0, 0, 1, 2, 6]))]
             k = rng.random()
             if k < 0.7:
-                f = F.discover(m, g, xid, st, tos=rng.choice([0, 0, 1]), eth_src=eth, declared=rng.choice([None, None, len(st) + 1, 0xffff]), pad=rng.random() < 0.5)
+                f = F.discover(m, g, xid, st, tos=rng.choice([0, 0, 1]), eth_src=eth, declared=rng.choice([None, None, len(st) + 1, 0xffff]), pad=rng.random() < 0.5,
+                               eth_dst=rng.choice([None, None, None, OWN, F.STATIONS[1]]))
             elif k < 0.85:
                 f = F.reset(m, tos=rng.choice([0, 1]), eth_src=eth, own=rng.choice([F.BCAST, OWN]))
             else:
